@@ -139,6 +139,9 @@ def run(seed_id, props, tier):
             t0 = time.time()
             rc, out = sh([os.path.join(VERIF, "vcheck"), p, "--tier", tier], cwd=VERIF, timeout=7200)
             keys = [l.strip() for l in out.splitlines() if l.strip().startswith("key=")]
+            # detected = the check's own verdict: exit 1 together with a VIOLATION line
+            if rc == 1 and not any(l.startswith("VIOLATION property=") for l in out.splitlines()):
+                rc = 3
             results["%s/%s" % (p, tier)] = {"exit": rc, "detected": rc == 1, "wall_s": round(time.time() - t0, 1),
                                             "violation_keys": [k[:200] for k in keys[:6]],
                                             "result_line": [l for l in out.splitlines() if l.startswith("RESULT") or l.startswith("BROKEN")][:2]}
